@@ -51,6 +51,22 @@ CHECKS["C22"] = ("exploration", "scripted-server monitor of the session handshak
     "All 5 policies x 2 modes x 12 signature/certificate variants over real secured channels provided by the independent peer; Connect must succeed iff the signature is valid, never activate, never report Connected, never die.",
     "client configured with the scripted server's certificate via SecurityFromEndpoint", "3/C22")
 
+CHECKS["C29"] = ("exploration", "hostile-client monitor of the real server in a child process: generated requests of every registered type, targeted requests, raw mutated chunks, non-reading clients; liveness canary with CPU-clock hang oracle and goroutine-dump witness",
+    "The real server runs as a child process; the independent scripted client sends targeted, generated (every registered request type, with and without session) and raw-fuzzed traffic; after each group a canary client on its own connection must get a Read answered. A dead process is a violation with the crashing frame; a silent process is a hang only if its CPU clock stands still (dump attached).",
+    "bounded time = canary 3 s + 4 fresh connections; server silent but burning CPU is inconclusive, never a violation", "3/C29")
+CHECKS["C31"] = ("exploration", "model-based monitor of access-level enforcement: real client against the real server, node values inspected in-process after every operation",
+    "8x8 grid of AccessLevel x UserAccessLevel (absent, Byte 0/1/2/3/0xfc, wrong-typed) nodes, seed-determined Read/Write sequences with unique values and run-time rewrites of the level attributes; a denied read must not return the value, a denied write must not answer Good and must leave the value unchanged.",
+    "levels present as Byte are the property's domain; absent/wrong-typed levels are only required not to crash", "3/C31")
+CHECKS["C32"] = ("exploration", "id-allocation and ownership model monitor over recorded create/delete histories of several sessions (independent scripted client, server tables inspected in-process)",
+    "Histories of CreateSubscription/DeleteSubscriptions/CreateMonitoredItems/DeleteMonitoredItems/SetMonitoringMode by 2-4 sessions incl. foreign and unknown ids; a create must never return an id that the model holds live; foreign deletes/mode changes must not answer Good and must leave the victim's entries unchanged.",
+    "model built from acknowledged responses only", "3/C32")
+CHECKS["C33"] = ("exploration", "metamorphic monitor of Browse against an independent filter model (unfiltered browse + own HasSubtype closure)",
+    "In-process Namespace.Browse over nodes of the standard address space and an added namespace x directions x all reference types (abstract included, null, unknown) x subtype flag x class masks, compared as multisets with the unfiltered result filtered by the model; a sample goes over the wire through a real client.",
+    "the unfiltered browse of the same node is trusted as the set of references", "3/C33")
+CHECKS["C35"] = ("exploration", "session-enforcement monitor: every registered request type x token state over a bare secure channel, effects inspected in-process",
+    "Every request type x {null, unknown, closed, created-not-activated, foreign} token x generated bodies sent by the independent scripted client; the answer must be a session error and values, subscription and monitored-item tables must be unchanged; a write under a valid session is the control.",
+    "discovery and session-establishment services are exempt as the property states", "3/C35")
+
 NOT_YET = {}
 
 
